@@ -61,6 +61,7 @@ const (
 	fInvisible        = "C05-invisible-glyph-ignored"
 	fFigureSpace      = "C05-figure-space-last-digit"
 	fMyanmarFlags     = "C05-myanmar-consonant-flags"
+	fMyanmarLocl      = "C05-myanmar-locl-ccmp-per-syllable"
 )
 
 // unconditional (skew / loader / unspecified) classes
@@ -569,6 +570,17 @@ func triage(fe *fontEntry, c *Case, got portResult, want refResult) class {
 	// not, so the base of a Myanmar syllable is chosen wrongly (pre-base vowels are not moved in
 	// U+1031 U+1031 U+1037). Precondition: Myanmar shaper and the item contains U+1037 or a Ra
 	// (U+1004, U+101B, U+105A).
+	// finding: the Myanmar shaper enables locl and ccmp without the per-syllable flag (upstream:
+	// F_PER_SYLLABLE, as the port's Khmer/Indic/USE shapers do): their contextual lookups match
+	// across syllable boundaries (NotoNastaliqUrdu, script Mymr, U+0600 U+0661). Precondition:
+	// Myanmar shaper and a GSUB with locl or ccmp.
+	if got.Script == language.Myanmar && ev.Known(fMyanmarLocl) {
+		for _, ft := range fe.feats {
+			if ft == "locl" || ft == "ccmp" {
+				return class{fMyanmarLocl, true}
+			}
+		}
+	}
 	if got.Script == language.Myanmar && ev.Known(fMyanmarFlags) {
 		for _, r := range c.item() {
 			if r == 0x1037 || r == 0x1004 || r == 0x101B || r == 0x105A {
@@ -583,30 +595,10 @@ func triage(fe *fontEntry, c *Case, got portResult, want refResult) class {
 				hasCn = true
 			}
 		}
-		if hasCn && c.NotFound != 0 {
-			// (the not-found glyph is a real glyph of the font: lookups act on it per syllable)
-			return class{sUseUnassigned, true}
-		}
 		if hasCn {
-			dc, hasDC := fe.face.NominalGlyph(0x25CC)
-			strip := func(gs []G) []uint32 {
-				var out []uint32
-				for _, g := range gs {
-					if !hasDC || g.ID != uint32(dc) {
-						out = append(out, g.ID)
-					}
-				}
-				sort.Slice(out, func(i, j int) bool { return out[i] < out[j] })
-				return out
-			}
-			a, b := strip(port), strip(ref)
-			same := len(a) == len(b)
-			for i := 0; same && i < len(a); i++ {
-				same = a[i] == b[i]
-			}
-			if same {
-				return class{sUseUnassigned, true}
-			}
+			// the syllable segmentation differs, and with it every per-syllable feature, joining
+			// form and reordering: nothing beyond the precondition is compared
+			return class{sUseUnassigned, true}
 		}
 	}
 
